@@ -128,7 +128,7 @@ func init() {
 			{Pattern: "strconv.ParseInt", Levels: "SF"}, {Pattern: "strconv.ParseUint", Levels: "SF"},
 			{Pattern: "strconv.LenInt", Levels: "SF"}, {Pattern: "strconv.LenUint", Levels: "SF"}, {Pattern: "strconv.AppendInt", Levels: "SF"},
 			{Pattern: "strconv.ParseFloat", Levels: "SF"},
-			{Pattern: "strconv.AppendNumber", Levels: "SF"}, {Pattern: "strconv.ParseNumber", Levels: "S"},
+			{Pattern: "strconv.AppendNumber", Levels: "SF"}, {Pattern: "strconv.ParseNumber", Levels: "SF"},
 			{Pattern: "strconv.AppendDecimal", Levels: "SF"},
 		},
 		NotDecided: []string{
@@ -223,7 +223,7 @@ func init() {
 			{Pattern: "parse.Error.*", Levels: "S"}, {Pattern: "parse.Input.PeekRune", Levels: "SF"}, {Pattern: "parse.Input.Offset", Levels: "S"},
 			{Pattern: "css.Parser.Err", Levels: "SF"}, {Pattern: "css.Parser.parseDeclaration", Levels: "F", OnlyTags: []string{"C15"}}, {Pattern: "buffer.NewReader", Levels: "SF"},
 			{Pattern: "json.Parser.Next", Levels: "F", OnlyTags: []string{"C15"}},
-			{Pattern: "js.Lexer.Next", Levels: "F", OnlyTags: []string{"C15"}}, {Pattern: "js.Lexer.consume*", Levels: "F", OnlyTags: []string{"C15"}},
+			{Pattern: "js.Parse", Levels: "F", Kinds: []string{"callsite", "cover"}}, {Pattern: "js.Lexer.Next", Levels: "F", OnlyTags: []string{"C15"}}, {Pattern: "js.Lexer.consume*", Levels: "F", OnlyTags: []string{"C15"}},
 			{Pattern: "xml.Lexer.Next", Levels: "F", OnlyTags: []string{"C15"}}, {Pattern: "html.Lexer.shiftRawText", Levels: "F", OnlyTags: []string{"C15"}},
 		},
 		NotDecided: []string{
